@@ -3,7 +3,8 @@ from . import c05_c16_flow as flow
 
 MODULE = "StorageModel.Properties.C16"
 THEOREMS = ["system_needs_system_ctx", "refused_tx_unchanged", "refused_aborts", "system_needs_system_ctx_tx",
-            "system_ctx_allowed", "flag_immutable", "update_never_changes_flag", "ordinary_unaffected",
+            "system_ctx_allowed", "flag_immutable", "update_never_changes_flag", "setBaseValues_update_keeps",
+            "ordinary_unaffected",
             "model_refines_spec"]
 
 
@@ -51,7 +52,11 @@ def histogram(case, impl, h):
             h[k] = h.get(k, 0) + 1
             if x[0] == "u":
                 h["update-checker:" + x[5]] = h.get("update-checker:" + x[5], 0) + 1
-                h["update-flag:" + x[3]] = h.get("update-flag:" + x[3], 0) + 1
+                k2 = "update-carries:IsSystem=" + x[3] + ",Migrate=" + x[6]
+                h[k2] = h.get(k2, 0) + 1
+            if x[0] == "c":
+                k2 = "create-carries:IsSystem=" + x[3] + ",Migrate=" + x[5]
+                h[k2] = h.get(k2, 0) + 1
     for tx in impl.split(" "):
         p = tx.split("|")
         for r in p[0].split(";"):
@@ -64,12 +69,16 @@ def histogram(case, impl, h):
 
 def describe(case, impl, model, spec):
     f = case.split(" ")
+    def rest(x):
+        tag = "nil" if x[3] == "~" else repr(_unhex(x[3]))
+        return f"Migrate={x[0]} CreatedAt={x[1]} UpdatedAt={x[2]} Tags[k]={tag}"
+
     def op(o):
         x = o.split(":")
         if x[0] == "c":
-            return f"Create[{'system' if x[1] == 's' else 'ordinary'} ctx] id={_unhex(x[2])!r} IsSystem={x[3]} name={_unhex(x[4])!r}"
+            return f"Create[{'system' if x[1] == 's' else 'ordinary'} ctx] id={_unhex(x[2])!r} IsSystem={x[3]} name={_unhex(x[4])!r} {rest(x[5:9])}"
         if x[0] == "u":
-            return f"Update[{'system' if x[1] == 's' else 'ordinary'} ctx] id={_unhex(x[2])!r} IsSystem={x[3]} name={_unhex(x[4])!r} checker={x[5]}"
+            return f"Update[{'system' if x[1] == 's' else 'ordinary'} ctx] id={_unhex(x[2])!r} IsSystem={x[3]} name={_unhex(x[4])!r} checker={x[5]} {rest(x[6:10])}"
         if x[0] == "d":
             return f"DeleteById[{'system' if x[1] == 's' else 'ordinary'} ctx] id={_unhex(x[2])!r}"
         return f"FindById id={_unhex(x[1])!r}"
@@ -86,13 +95,17 @@ def describe(case, impl, model, spec):
 MATCHERS = {}
 
 RULE = ("each case is a history of Db.Update transactions over a real store of ext-entities with the system-entity "
-        "constraint on a fresh bolt file. (1) exhaustive two-step histories: create (ordinary|system ctx) x (flag t|f), "
-        "then delete / re-create / update (flag t|f) x (checker nil, name, isSystem, name+isSystem, empty) from either "
+        "constraint on a fresh bolt file; every Create/Update carries the WHOLE in-memory entity (IsSystem, Migrate, "
+        "CreatedAt, UpdatedAt, Tags, name). (1) exhaustive two-step histories: create (ordinary|system ctx) x (IsSystem t|f) "
+        "x (Migrate t|f), then delete / re-create / update (IsSystem t|f) x (Migrate t|f) x (checker nil, name, isSystem, "
+        "all fields, empty) from either "
         "context, in the same or a later transaction, Db.Update handed an ordinary or a system context, body aborting "
         "at the first error or ignoring errors and committing, followed by a read-back transaction; (2) random histories "
-        "(2-7 transactions of 1-4 operations over 2-4 ids) mixing both context kinds per operation and per transaction. "
+        "(2-7 transactions of 1-4 operations over 2-4 ids) mixing both context kinds per operation and per transaction, "
+        "IsSystem 1/2, Migrate 2/5, timestamps from {zero, 1000, 2000, 3000}, tags nil or a value, 11 checker shapes. "
         "After every operation the error kind, after a failing operation the uncommitted state, after every transaction "
-        "FindById (IsSystemEntity, name) and the raw isSystem key of every pool id are compared. non-trivial = the "
+        "FindById (IsSystemEntity, name, tag, createdAt, updatedAt as zero / given value / clock) and the raw isSystem key "
+        "of every pool id are compared. non-trivial = the "
         "history holds a system entity at some point or contains a refusal; distinct = distinct case lines")
 
 
@@ -124,7 +137,7 @@ def run(ctx, replay_cases=None):
         "bbolt: Db.Update commits iff the body returns nil, otherwise nothing is written (exercised by the correspondence on every run)",
         "every typed setter of PersistContext/TypedBucket is a no-op once the bucket's error holder is set (ProceedWithSet; exercised by the keep-going histories: a refused update that is ignored and committed leaves the entity unchanged)",
         "the entity's PersistEntity uses BaseExtEntity.SetBaseValues (a store whose strategy writes isSystem itself is outside the model)",
-        "timestamps (createdAt/updatedAt) and tags are not compared",
+        "a persisted timestamp is compared as: zero time / one of the values the generator hands out / anything else = the clock",
     ]
     return flow.flow(ctx, "c16", MODULE, THEOREMS, MATCHERS, normalise=normalise, nontrivial=nontrivial,
                      describe=describe, rule=RULE, histogram=histogram, candidates=candidates,
